@@ -17,14 +17,19 @@ pub struct Node {
     pub choices: Vec<usize>,
     pub idx: usize,
     pub used_before: usize,
+    /// number of non-default choices (preemptions or free switches) taken before this node
+    pub devs_before: usize,
     pub default_is_current: bool,
     pub point: &'static str,
 }
 
 #[derive(Clone, Copy, Debug, PartialEq, Eq)]
 pub enum Mode {
-    /// Exhaustive DFS over all schedules with at most `bound` preemptions.
-    Dfs { bound: usize },
+    /// Exhaustive DFS over all schedules with at most `bound` preemptions and at most
+    /// `max_dev` deviations from the default schedule in total (a deviation is any non-default
+    /// choice: a preemption, or picking another than the lowest-id task when the current task
+    /// blocked, finished or yielded).
+    Dfs { bound: usize, max_dev: usize },
     /// Follow the pre-loaded choice list (indices into the canonical choice order), then take
     /// choice 0 for ever. With an empty list this is the single `Seq` schedule.
     Fixed,
@@ -39,12 +44,19 @@ pub struct Core {
     pub stack: Vec<Node>,
     pub depth: usize,
     pub used: usize,
+    pub devs: usize,
     pub started: bool,
     pub done: bool,
     /// For `Fixed`: forced choice indices for the first decisions.
     pub forced: Vec<usize>,
-    /// Restrict exploration to schedules whose first branching decisions equal this prefix
-    /// (work partitioning across processes). Indices into `choices` of the k-th *branching* node.
+    /// Work partitioning: `(i, n)` restricts this explorer to the schedules whose *first*
+    /// deviation (shallowest decision with a non-default choice) is at a decision index d with
+    /// d % n == i; the deviation-free schedule belongs to partition 0.
+    pub partition: Option<(usize, usize)>,
+    /// true while running the deviation-free schedule in a partition that does not own it
+    pub first_is_foreign: bool,
+    pub deadline: Option<std::time::Instant>,
+    pub stopped_by_deadline: bool,
     // statistics
     pub executions: u64,
     pub steps: u64,
@@ -64,9 +76,14 @@ impl Core {
             stack: Vec::new(),
             depth: 0,
             used: 0,
+            devs: 0,
             started: false,
             done: false,
             forced: Vec::new(),
+            partition: None,
+            first_is_foreign: false,
+            deadline: None,
+            stopped_by_deadline: false,
             executions: 0,
             steps: 0,
             nodes_created: 0,
@@ -95,11 +112,24 @@ impl Core {
             .collect()
     }
 
-    fn admissible(&self, n: &Node) -> bool {
+    fn admissible(&self, pos: usize) -> bool {
+        let n = &self.stack[pos];
         match self.mode {
             Mode::Fixed => false,
-            Mode::Dfs { bound } => {
-                n.idx + 1 < n.choices.len() && (!n.default_is_current || n.used_before + 1 <= bound)
+            Mode::Dfs { bound, max_dev } => {
+                if !(n.idx + 1 < n.choices.len() && (!n.default_is_current || n.used_before + 1 <= bound)) {
+                    return false;
+                }
+                if n.devs_before + 1 > max_dev {
+                    return false;
+                }
+                if let Some((i, parts)) = self.partition {
+                    let is_first_deviation = n.idx == 0 && self.stack[..pos].iter().all(|m| m.idx == 0);
+                    if is_first_deviation && pos % parts != i {
+                        return false;
+                    }
+                }
+                true
             }
         }
     }
@@ -108,29 +138,39 @@ impl Core {
         if self.done {
             return false;
         }
+        if let Some(d) = self.deadline {
+            if std::time::Instant::now() > d {
+                self.stopped_by_deadline = true;
+                return false;
+            }
+        }
         if self.started {
             // backtrack
             self.stack.truncate(self.depth);
             loop {
-                match self.stack.last() {
-                    None => {
-                        self.done = true;
-                        return false;
-                    }
-                    Some(n) => {
-                        if self.admissible(n) {
-                            break;
-                        }
-                        self.stack.pop();
-                    }
+                if self.stack.is_empty() {
+                    self.done = true;
+                    return false;
                 }
+                if self.admissible(self.stack.len() - 1) {
+                    break;
+                }
+                self.stack.pop();
             }
             let n = self.stack.last_mut().unwrap();
             n.idx += 1;
         }
+        if !self.started {
+            // the deviation-free schedule is explored by partition 0 only; the others still run
+            // it once (to build the stack) but do not count it
+            self.first_is_foreign = matches!(self.partition, Some((i, _)) if i != 0);
+        } else {
+            self.first_is_foreign = false;
+        }
         self.started = true;
         self.depth = 0;
         self.used = 0;
+        self.devs = 0;
         self.cur_preempts.clear();
         self.executions += 1;
         true
@@ -174,6 +214,7 @@ impl Core {
                 choices,
                 idx,
                 used_before: self.used,
+                devs_before: self.devs,
                 default_is_current: cur_ok && !is_yielding,
                 point,
             });
@@ -188,6 +229,7 @@ impl Core {
             return None;
         }
         if n.idx > 0 {
+            self.devs += 1;
             if n.default_is_current {
                 self.used += 1;
             }
